@@ -219,7 +219,7 @@ def scale_space(tier, seed):
         bs, vs, boots, bds = ('info', 'generic'), (0,), ('none', 'r3'), ('none',)
     else:
         hscs, thrs = tuple(HSC_KINDS), tuple(THR_KINDS)
-        bs, vs, boots, bds = tuple(B_KINDS), (0, 1), ('none', 'r3', 'const'), ('none', 'active')
+        bs, vs, boots, bds = tuple(B_KINDS), (1,), ('none', 'r3', 'const'), ('none', 'active')
     out = []
     for k in (1, 2, 3):
         for h, hsc, thr, b, v, boot, bd in itertools.product(range(len(A_FAMILY[k])), hscs, thrs, bs, vs, boots, bds):
